@@ -41,12 +41,24 @@ def main() -> int:
     try:
         os.makedirs(os.path.join(wt, "_seeded", "x"))
         shutil.copy(demo, os.path.join(wt, "_seeded", "x", "demo.py"))
+        helpers = [f for f in os.listdir(os.path.dirname(src)) if f.endswith(".py")]
+        for h in helpers:      # shared harness files the agent put next to its numbered directories
+            shutil.copy(os.path.join(os.path.dirname(src), h), os.path.join(wt, "_seeded", h))
+        for h in os.listdir(src):
+            if h not in ("demo.py", "patch.diff", "notes.md") and os.path.isfile(os.path.join(src, h)):
+                shutil.copy(os.path.join(src, h), os.path.join(wt, "_seeded", "x", h))
         rc_clean, out_clean = sh([PY, "_seeded/x/demo.py"], wt)
         rc, out = sh(["git", "apply", patch], wt)
         if rc:
             print("patch does not apply:", out)
             return 2
-        rc_suite, out_suite = sh([PY, "-m", "pytest", "-q", "-p", "no:cacheprovider", "--timeout=900", "-x", "-q"], wt)
+        for attempt in range(4):
+            # the two integration tests bind fixed ports; they collide when several worktrees run the suite at once, so retry
+            rc_suite, out_suite = sh([PY, "-m", "pytest", "-q", "-p", "no:cacheprovider", "--timeout=900", "-q"], wt)
+            if rc_suite == 0 or "Address already in use" not in out_suite and "test_integration" not in out_suite:
+                break
+            import time
+            time.sleep(5 + 7 * attempt)
         tail = [l for l in out_suite.strip().splitlines() if l.strip()][-1:]
         rc_demo, out_demo = sh([PY, "_seeded/x/demo.py"], wt)
         meta["confirmed"] = {
@@ -71,13 +83,25 @@ def main() -> int:
     meta["caught"] = bool(fired)
     meta["caught_by_property_check"] = any(l.startswith(prop + " ") for l in fired)
     notes = os.path.join(src, "notes.md")
-    meta["needs_to_manifest"] = ""
+    meta["needs_to_manifest"] = "see notes.md"
+    if os.path.isfile(notes):
+        txt = open(notes, errors="replace").read()
+        import re
+        m = re.search(r"(?is)(what is needed[^\n]*\n.*?)(\n#|\n\*\*|\Z)", txt)
+        meta["needs_to_manifest"] = (m.group(1) if m else txt)[:900].strip()
     dst = os.path.join(VERIF, "seeded", sid)
     os.makedirs(dst, exist_ok=True)
     shutil.copy(patch, os.path.join(dst, "patch.diff"))
     shutil.copy(demo, os.path.join(dst, "demo.py"))
     if os.path.isfile(notes):
         shutil.copy(notes, os.path.join(dst, "notes.md"))
+    for h in [f for f in os.listdir(os.path.dirname(src)) if f.endswith(".py")]:
+        os.makedirs(os.path.join(dst, "shared"), exist_ok=True)
+        shutil.copy(os.path.join(os.path.dirname(src), h), os.path.join(dst, "shared", h))
+    for h in os.listdir(src):
+        if h not in ("demo.py", "patch.diff", "notes.md") and os.path.isfile(os.path.join(src, h)):
+            shutil.copy(os.path.join(src, h), os.path.join(dst, h))
+    meta["layout"] = "run from a worktree root as _seeded/x/demo.py; files under shared/ go to _seeded/"
     with open(os.path.join(dst, "meta.json"), "w") as f:
         json.dump(meta, f, indent=1)
     print("kept as", dst)
